@@ -917,3 +917,10 @@ def sample_of(case, r):
         c["ops"] = c["ops"][:12] + ["... %d operations" % len(case["ops"])]
     return {"case": c, "class": r.get("cls"), "calls_judged": r.get("judged"), "status": r.get("status"),
             "counters": r.get("counters")}
+
+
+def warmup():
+    """imports done before the per-case watchdog is armed"""
+    from scipy import stats  # noqa: F401
+    from torchphysics.problem import samplers, conditions, domains  # noqa: F401
+    from torchphysics.models import FCN  # noqa: F401
